@@ -154,6 +154,9 @@ def run_unit(ctx, unit):
     st.see("exit_codes", rc)
 
 
+READABLE_LAYOUTS = ["linked-directory", "relative-linked-directory", "linked-file", "linked-directory-argument", "nested-directories"]
+
+
 def run_unreadable(ctx, unit):
     """Inputs that cannot be read at all: stdin that is a directory (the very first read fails), a file argument that does not
     exist, a directory given where the first read fails.  The run must end with a non-zero status and a message on stderr,
@@ -183,6 +186,44 @@ def run_unreadable(ctx, unit):
             p = subprocess.run([binary, good, os.path.join(d, "missing.json")] + args, stdin=subprocess.DEVNULL, stdout=subprocess.PIPE, stderr=subprocess.PIPE, timeout=60)
             # a later input that is never needed (the limit was reached before) need not be looked at
             must_fail = "--take" not in unit["config"]
+        elif kind in READABLE_LAYOUTS:
+            # inputs that CAN be read, reached in a roundabout way: status 0, nothing on stderr, the rows of the plain file
+            real = os.path.join(d, "real", "deeper")
+            os.makedirs(real)
+            os.rename(good, os.path.join(real, "a.json"))
+            good = os.path.join(real, "a.json")
+            ind = os.path.join(d, "in")
+            os.makedirs(ind)
+            if kind == "linked-directory":
+                os.symlink(os.path.join(d, "real"), os.path.join(ind, "link"))
+                target = ind
+            elif kind == "relative-linked-directory":
+                os.makedirs(os.path.join(ind, "sub"))
+                os.symlink("../../real/deeper", os.path.join(ind, "sub", "link"))
+                target = ind
+            elif kind == "linked-file":
+                os.symlink(good, os.path.join(ind, "link.json"))
+                target = ind
+            elif kind == "linked-directory-argument":
+                os.symlink(os.path.join(d, "real"), os.path.join(d, "direct"))
+                target = os.path.join(d, "direct")
+            else:   # nested-directories with empty neighbours
+                os.makedirs(os.path.join(d, "real", "empty", "er"))
+                target = os.path.join(d, "real")
+            ref = subprocess.run([binary, good] + args, stdin=subprocess.DEVNULL, stdout=subprocess.PIPE, stderr=subprocess.PIPE, timeout=60)
+            p = subprocess.run([binary, target] + args, stdin=subprocess.DEVNULL, stdout=subprocess.PIPE, stderr=subprocess.PIPE, timeout=60)
+            st.count("spawns", 2)
+            st.count("conclusive")
+            st.count("roundabout_input_runs")
+            if ref.returncode != 0 or ref.stderr:
+                st.violation("plain-file-run-failed", "a run on a readable file failed: %d %r" % (ref.returncode, ref.stderr[:200]), unit, {"args": args})
+            elif p.returncode != 0 or p.stderr or p.stdout != ref.stdout:
+                st.violation("readable-input-reported-as-failure", "a readable input (%s) gives status %d, stderr %r, and %s rows [policy %s, config %s]" % (
+                    kind, p.returncode, p.stderr[:200], "the same" if p.stdout == ref.stdout else "other", unit["policy"], unit["config"]), unit,
+                    {"args": args, "stdout": p.stdout[:300], "want": ref.stdout[:300]})
+            else:
+                st.see("nontrivial", (unit["policy"], kind, 0))
+            return
         else:   # unreadable-file (a directory symlinked as a file cannot be produced portably): a file we may not read
             os.chmod(good, 0)
             p = subprocess.run([binary, good] + args, stdin=subprocess.DEVNULL, stdout=subprocess.PIPE, stderr=subprocess.PIPE, timeout=60)
@@ -212,8 +253,8 @@ def worker(ctx):
         if ctx.expired():
             st.count("stopped_by_deadline")
             break
-        if ctx.rng.random() < 0.12:
-            unit = {"unreadable": ctx.rng.choice(["stdin-directory", "missing-file", "missing-second-file", "unreadable-file"]),
+        if ctx.rng.random() < 0.2:
+            unit = {"unreadable": ctx.rng.choice(["stdin-directory", "missing-file", "missing-second-file", "unreadable-file"] + READABLE_LAYOUTS),
                     "policy": ctx.rng.choice(POLICIES), "config": ctx.rng.choice(VALID), "values": [], "gaps": [[]], "wsseed": 0, "sep": "\n", "sink": "pipe",
                     "valid": True}
             run_unreadable(ctx, unit)
